@@ -12,7 +12,7 @@ from __future__ import annotations
 
 from functools import lru_cache
 
-from ..ctf import base_assignments, event_from_json, event_json, event_value_env, events, ground_items, to_event
+from ..ctf import events2, base_assignments, event_from_json, event_json, event_value_env, events, ground_items, to_event
 from ..fscm import FSCM, FWorld
 from ..graphs import G, enum_L, enum_O
 from ..runner import Res, fkey_of
@@ -25,7 +25,7 @@ TITLE = "ID* estimands equal the probability of the counterfactual event"
 @lru_cache(maxsize=None)
 def _universe(tier):
     if tier == "quick":
-        return [g for n in (1, 2, 3) for g in enum_O(n)]
+        return [g for n in (1, 2, 3) for g in enum_L(n)]
     return [g for n in (1, 2, 3) for g in enum_L(n)] + list(enum_O(4, max_edges=3))
 
 
@@ -33,8 +33,8 @@ def event_space(g: G, tier):
     n = len(g.nodes)
     if n <= 3:
         if tier == "quick":
-            return events(g.nodes, 2, 2, 1)
-        return events(g.nodes, 2, 3, 2)
+            return events2(g.nodes)
+        return itt.chain(events(g.nodes, 2, 3, 2), (e for e in events2(g.nodes) if len(e) == 3))
     return events(g.nodes, 2, 2, 1)
 
 
@@ -47,8 +47,8 @@ def shards(tier):
 def describe(tier):
     return {
         "bound": (
-            "graphs O(1..3) name-ordered ADMGs; events: single items with up to 2 subscripts, pairs of items with up to 1 "
-            "subscript each"
+            "graphs L(1..3) all labelled ADMGs (edges may run against the node insertion order); events: single items with up "
+            "to 2 subscripts, pairs (up to 2 subscripts, up to 1 subscript), triples of one such item and two factual items"
             if tier == "quick"
             else "graphs L(1..3) all labelled ADMGs (single items with up to 3 subscripts, pairs with up to 2 each) + O(4, <=3 "
             "edges) (singles up to 2, pairs up to 1)"
